@@ -425,6 +425,29 @@ def brief(sc):
     return sc['op']
 
 
+def sample_points(c, su):
+    """the wavelengths of a blackbody / vegastar case expressed in the unit su (physical definition of the units)"""
+    k = truth_factor(wcanon(c['wn']), wcanon(su))
+    return [w * k for w in c['waves']]
+
+
+def vega_entry(band):
+    """the band's table entry as the model wants it: (w0 metres, Jansky), from the implementation's SI observation"""
+    f0, w0 = rad().vegaflux(band, 'm', 'photlam')
+    w0 = Fraction(float(w0))
+    return w0, Fraction(float(f0)) * table()['c']['H'] * w0 * 10 ** 26
+
+
+def enc_samples(c, temp):
+    out = [len(c.get('samples', []))]
+    xs = []
+    for su in c.get('samples', []):
+        pts = sample_points(c, su)
+        out += [code(su)] + C.enc_list(pts, C.enc_q)
+        xs += [planck_x(p, temp, su) for p in pts]
+    return out, xs
+
+
 def first_refused(c):
     """index of the first argument of a chain that Spectrum.to must refuse, or None"""
     vu = fcanon(c['vu']) if c['vu'] else None
@@ -534,8 +557,23 @@ def encode(c):
     if op == 'blackbody':
         xs = [planck_x(w, c['temp'], c['wn']) for w in c['waves']]
         tab = exp_table([x for x in xs if x is not None])
-        return ([6] + C.enc_list(c['waves'], C.enc_q) + C.enc_q(c['temp']) + [code(c['wn']), code(c['vn'])]
-                + enc_tab(tab) + enc_names(c['args']))
+        sm, xs2 = enc_samples(c, c['temp'])
+        tab = exp_table(sorted({x for x in xs + xs2 if x is not None}))
+        return ([9] + C.enc_list(c['waves'], C.enc_q) + C.enc_q(c['temp']) + [code(c['wn']), code(c['vn'])]
+                + enc_tab(tab) + enc_names(c['args']) + sm)
+    if op == 'vegastar':
+        try:                      # the table entry is observed through the implementation: if that fails or is
+            w0, jy = vega_entry(c['band'])      # degenerate the case is left to the oracle
+            t = table()
+            xs = [planck_x(w, c['temp'], c['wn']) for w in c['waves']]
+            xs.append(t['c']['H'] * t['c']['C'] / (w0 * t['c']['K'] * Fraction(c['temp'])))
+            sm, xs2 = enc_samples(c, c['temp'])
+            tab = exp_table(sorted({x for x in xs + xs2 if x is not None}))
+        except Exception:
+            return None
+        return ([10] + C.enc_q(w0) + C.enc_q(jy) + C.enc_q(10 ** (-0.4 * c['mag'])) + C.enc_q(c['temp'])
+                + C.enc_list(c['waves'], C.enc_q) + [code(c['wn']), code(c['vn'])] + C.enc_q(math.pi)
+                + enc_tab(tab) + enc_names(c['args']) + sm)
     return None
 
 
@@ -563,7 +601,13 @@ def decode(c, ints):
             return {'err': C.ERRNAMES[e], 'state': sp}
         return sp
     if op == 'blackbody':
-        return dec_spec(rd)
+        sp = dec_spec(rd)
+        sp['cross'] = [rd.lst(rd.q) for _ in c.get('samples', [])]
+        return sp
+    if op == 'vegastar':
+        v0 = rd.lst(rd.q)
+        sp = dec_spec(rd)
+        return {'value0': v0, 'state': sp, 'samples': [rd.lst(rd.q) for _ in c['samples']]}
     if op == 'sample':
         return {'values': rd.lst(rd.q)}
     raise ValueError(op)
@@ -730,7 +774,7 @@ def run_impl(c):
             fin['rad0'] = fl(R.planck_radiance(np.array(c['waves'], dtype=float), c['temp'], c['wn'], c['vn']))
             fin['cross'] = []
             for su in c.get('samples', []):          # the same object sampled in other wave units, one call after the other
-                pts = np.array(fin['wave'], dtype=float) * truth_factor(fin['wu'], wcanon(su))
+                pts = np.array(sample_points(c, su), dtype=float)
                 got = fl(bb.sample(pts, su) if su != 'nm' else bb.sample(pts))
                 now = snap(bb)
                 fin['cross'].append({'unit': su, 'points': fl(pts), 'values': got,
@@ -819,7 +863,7 @@ def run_impl(c):
                                * 10 ** (-0.4 * c['mag']))
             out['samples'] = []
             for su in c['samples']:
-                pts = np.array(st['wave'], dtype=float) * truth_factor(st['wu'], wcanon(su))
+                pts = np.array(sample_points(c, su), dtype=float)
                 got = fl(star.sample(pts, waveunit=su) if su != 'nm' else star.sample(pts))
                 now = snap(star)
                 fresh = mk()
@@ -864,6 +908,16 @@ def compare(c, impl, model):
         return None if close(impl['v'], model['v'], tol) else f'{op}: implementation {impl["v"]!r} model {float(model["v"])!r}'
     if op in ('factor', 'factor3', 'flux3'):
         return None if close(impl['v'], model['v']) else f'{op}: implementation {impl["v"]!r} model {float(model["v"])!r}'
+    if op == 'vegastar':
+        if not lclose(impl['value0'], model['value0'], 1e-11):
+            return f'vegamag values as built: implementation {impl["value0"]} model {[float(x) for x in model["value0"]]}'
+        if not same_state(impl['state'], model['state'], 1e-11):
+            return (f'vegamag star after to{tuple(c["args"])}: implementation {impl["state"]} model values '
+                    f'{[float(x) for x in model["state"]["value"]]} in {(model["state"]["wu"], model["state"]["vu"])}')
+        for x, mv in zip(impl['samples'], model['samples']):
+            if not lclose(x['values'], mv, 1e-11):
+                return f'vegamag star sampled with waveunit={x["unit"]!r} at {x["points"]}: implementation {x["values"]} model {[float(v) for v in mv]}'
+        return None
     fin = impl['steps'][-1] if op == 'chain' else impl
     if (fin['wu'], fin['vu']) != (model['wu'], model['vu']):
         return f'{op}: units after to(): implementation {(fin["wu"], fin["vu"])} model {(model["wu"], model["vu"])}'
@@ -873,6 +927,10 @@ def compare(c, impl, model):
         return f'{op}: values after to(): implementation {fin["value"]} model {[float(x) for x in model["value"]]}'
     if not close(fin['integral'], model['integral'], 1e-11):
         return f'{op}: trapezoid integral: implementation {fin["integral"]} model {float(model["integral"])}'
+    if op == 'blackbody':
+        for x, mv in zip(impl.get('cross', []), model.get('cross', [])):
+            if not lclose(x['values'], mv):
+                return f'Blackbody.sample(waveunit={x["unit"]!r}) at {x["points"]}: implementation {x["values"]} model {[float(v) for v in mv]}'
     return None
 
 
